@@ -25,6 +25,40 @@ CLAIMED = {
             'runs natively on the per-path concrete pattern; z3 5.1; '
             'vf/sym.py explorer; reference labelling in vf/util.py',
             TECH),
+    'C02': ('3/C02',
+            'For every symbolic data/error image (NaN-extended reals) up to '
+            '3x3 (thorough 4x4), every mask, every aperture-mask box position '
+            'relative to the image (inside, straddling each edge, no '
+            'overlap) and either symbolic weights in [0,1] or the compiled '
+            'weights of a pool of 18 real apertures x 3 methods, '
+            'do_photometry / area_overlap / ApertureMask.get_values, '
+            'multiply, cutout, to_image return exactly the weighted sums over '
+            'in-image, positive-weight, unmasked pixels (NaN iff the box '
+            'misses the image), many positions equal one at a time, and the '
+            'aperture_photometry table equals do_photometry for every call '
+            'form (bare, NDData, units, aperture lists). Bounded claim.',
+            'floats as NaN-extended reals; compiled mask weights taken as '
+            'given in the real-mask flavour (C01 covers them); table/call-'
+            'form part runs on concrete data with solver-enumerated call '
+            'forms; sky apertures not covered',
+            TECH),
+    'C17': ('3/C17',
+            'centroid_com: for all NaN-extended symbolic data and masks up '
+            'to 3x3 (thorough 4x4) the result satisfies x*sum(d)=sum(x*d) '
+            'over unmasked finite pixels, NaN iff the total is 0. '
+            'centroid_quadratic: for every exactly quadratic input (symbolic '
+            'coefficients / symbolic curvature about enumerated vertices) '
+            'on 3x3..5x6 with fit boxes 3,5,(3,5) a returned non-edge point '
+            'is the vertex and a concave peak never yields NaN; the fitted '
+            'pixel set and coefficients commute with transposition for '
+            'general symbolic data. centroid_sources: for every solver-'
+            'chosen position list (1-2 sources, thorough 3), presence of '
+            'mask/error/xpeak,ypeak and footprint the centroid function '
+            'receives exactly the per-position cutouts of the ORIGINAL '
+            'arrays and results are cutout result + offset.',
+            'numpy.linalg.lstsq replaced by an exact rational solve; '
+            'centroid_1dg/2dg fits not covered; floats as reals',
+            TECH),
 }
 
 NOT_YET = {}
